@@ -6,7 +6,7 @@
    A chunk is one push into the output stream (one output.text callback invocation).  Tag chunks:
      `<name`   (first character '<', second neither '/' nor '!')   -> TOpen name
      `</name>`                                                     -> TClose name
-   Hypotheses: no name, attribute or text of the tree contains '<'; names contain no line break; the
+   Hypotheses: no name, attribute or text of the tree contains '<'; names contain no line break (CR, LF); the
    newline+baseIndent and indent strings do not start with '<'; the attribute tables contain no '<'; comments
    are disabled (they are additive: C12). *)
 From Coq Require Import List NArith ZArith Bool Lia.
@@ -72,7 +72,7 @@ Fixpoint node_clean (n : anode) : bool :=
   match n with
   | ANode nm v _ at_ ch _ =>
       nolt (match nm with Some x => x | None => [] end)
-      && nolb (match nm with Some x => x | None => [] end)
+      && nocrlf (match nm with Some x => x | None => [] end)
       && name_start (match nm with Some x => x | None => [] end)
       && oval_nolt v
       && forallb attr_clean (match at_ with Some l => l | None => [] end)
@@ -123,38 +123,31 @@ Proof.
   unfold str_case. destruct k as [|k0 k]; [reflexivity|].
   destruct (str_eqb (k0 :: k) s_upper); [apply nolt_upper|apply nolt_lower].
 Qed.
-Lemma nolb_lower s : nolb (lower s) = nolb s.
+Lemma letter_not_crlf' x : (65 <= x <= 122)%N -> is_crlf x = false.
 Proof.
-  unfold nolb, lower. induction s as [|ch s IH]; [reflexivity|]. cbn [map forallb]. rewrite IH. f_equal. f_equal.
+  intros Hx. unfold is_crlf, c_cr, c_nl.
+  destruct (N.eqb_spec x 13); destruct (N.eqb_spec x 10); try reflexivity; lia.
+Qed.
+Lemma nocrlf_lower s : nocrlf (lower s) = nocrlf s.
+Proof.
+  unfold nocrlf, lower. induction s as [|ch s IH]; [reflexivity|]. cbn [map forallb]. rewrite IH. f_equal. f_equal.
   unfold lower_c. destruct (in_range c_A c_Z ch) eqn:E; [|reflexivity].
   unfold in_range, c_A, c_Z in E. apply andb_true_iff in E. destruct E as [E1 E2].
   apply N.leb_le in E1. apply N.leb_le in E2.
-  assert (G : forall x, (65 <= x <= 122)%N -> is_linebreak x = false).
-  { intros x Hx. unfold is_linebreak. destruct (existsb (N.eqb x) py_linebreaks) eqn:Ex; [|reflexivity].
-    apply existsb_exists in Ex. destruct Ex as [y [Hin Hy]]. apply N.eqb_eq in Hy. subst y.
-    assert (F : forallb (fun y => (y <? 65)%N || (122 <? y)%N) py_linebreaks = true) by (vm_compute; reflexivity).
-    rewrite forallb_forall in F. specialize (F x Hin). apply orb_true_iff in F.
-    destruct F as [F|F]; apply N.ltb_lt in F; lia. }
-  rewrite (G ch) by lia. apply G. lia.
+  rewrite (letter_not_crlf' ch) by lia. apply letter_not_crlf'. lia.
 Qed.
-Lemma nolb_upper s : nolb (upper s) = nolb s.
+Lemma nocrlf_upper s : nocrlf (upper s) = nocrlf s.
 Proof.
-  unfold nolb, upper. induction s as [|ch s IH]; [reflexivity|]. cbn [map forallb]. rewrite IH. f_equal. f_equal.
+  unfold nocrlf, upper. induction s as [|ch s IH]; [reflexivity|]. cbn [map forallb]. rewrite IH. f_equal. f_equal.
   unfold upper_c. destruct (in_range c_a c_z ch) eqn:E; [|reflexivity].
   unfold in_range, c_a, c_z in E. apply andb_true_iff in E. destruct E as [E1 E2].
   apply N.leb_le in E1. apply N.leb_le in E2.
-  assert (G : forall x, (65 <= x <= 122)%N -> is_linebreak x = false).
-  { intros x Hx. unfold is_linebreak. destruct (existsb (N.eqb x) py_linebreaks) eqn:Ex; [|reflexivity].
-    apply existsb_exists in Ex. destruct Ex as [y [Hin Hy]]. apply N.eqb_eq in Hy. subst y.
-    assert (F : forallb (fun y => (y <? 65)%N || (122 <? y)%N) py_linebreaks = true) by (vm_compute; reflexivity).
-    rewrite forallb_forall in F. specialize (F x Hin). apply orb_true_iff in F.
-    destruct F as [F|F]; apply N.ltb_lt in F; lia. }
-  rewrite (G ch) by lia. apply G. lia.
+  rewrite (letter_not_crlf' ch) by lia. apply letter_not_crlf'. lia.
 Qed.
-Lemma nolb_tag_name c s : nolb (tag_name c s) = nolb s.
+Lemma nocrlf_tag_name c s : nocrlf (tag_name c s) = nocrlf s.
 Proof.
   unfold tag_name, str_case. destruct (oc_tag_case c) as [|k0 k]; [reflexivity|].
-  destruct (str_eqb (k0 :: k) s_upper); [apply nolb_upper|apply nolb_lower].
+  destruct (str_eqb (k0 :: k) s_upper); [apply nocrlf_upper|apply nocrlf_lower].
 Qed.
 Lemma name_start_tag_name c s : name_start (tag_name c s) = name_start s.
 Proof.
@@ -184,14 +177,14 @@ Qed.
 Lemma nolt_rev s : nolt s = true -> nolt (rev s) = true.
 Proof. intros H. unfold nolt in *. rewrite forallb_forall in *. intros x Hx. apply H, in_rev, Hx. Qed.
 
-Lemma splitlines_aux_nolt : forall n s cur, length s <= n -> nolt cur = true -> nolt s = true ->
-  Forall (fun l => nolt l = true) (splitlines_aux s cur).
+Lemma split_crlf_aux_nolt : forall n s cur, length s <= n -> nolt cur = true -> nolt s = true ->
+  Forall (fun l => nolt l = true) (split_crlf_aux s cur).
 Proof.
   induction n as [|n IH]; intros s cur Hl Hc Hs; destruct s as [|ch s]; cbn [length] in Hl; try lia.
-  - cbn [splitlines_aux]. destruct cur; [constructor|]. constructor; [apply nolt_rev, Hc|constructor].
-  - cbn [splitlines_aux]. destruct cur; [constructor|]. constructor; [apply nolt_rev, Hc|constructor].
+  - cbn [split_crlf_aux]. destruct cur; [constructor|]. constructor; [apply nolt_rev, Hc|constructor].
+  - cbn [split_crlf_aux]. destruct cur; [constructor|]. constructor; [apply nolt_rev, Hc|constructor].
   - cbn [nolt forallb] in Hs. fold (nolt s) in Hs. apply andb_true_iff in Hs. destruct Hs as [Hch Hs].
-    cbn [splitlines_aux]. destruct (is_linebreak ch).
+    cbn [split_crlf_aux]. fold (is_crlf ch). destruct (is_crlf ch).
     + destruct s as [|c2 s'].
       * constructor; [apply nolt_rev, Hc|constructor].
       * cbn [length] in Hl.
@@ -201,8 +194,8 @@ Proof.
         -- constructor; [apply nolt_rev, Hc|apply IH; [cbn [length]; lia|reflexivity|exact Hs]].
     + apply IH; [lia| |exact Hs]. cbn [nolt forallb]. rewrite Hch. exact Hc.
 Qed.
-Lemma splitlines_nolt s : nolt s = true -> Forall (fun l => nolt l = true) (splitlines s).
-Proof. intros H. unfold splitlines. apply (splitlines_aux_nolt (length s)); [lia|reflexivity|exact H]. Qed.
+Lemma split_crlf_nolt s : nolt s = true -> Forall (fun l => nolt l = true) (split_crlf s).
+Proof. intros H. unfold split_crlf. apply (split_crlf_aux_nolt (length s)); [lia|reflexivity|exact H]. Qed.
 
 (* ================================================================ quiet operations: the tag list stays as it is *)
 Section Quiet.
@@ -256,8 +249,8 @@ Section Quiet.
 
   Lemma otags_push_string o s : nolt s = true -> otags (os_push_string f o s) = otags o.
   Proof.
-    intros H. unfold os_push_string. pose proof (splitlines_nolt s H) as Hl.
-    destruct (splitlines s) as [|l0 ls]; [reflexivity|]. inversion Hl; subst.
+    intros H. unfold os_push_string. pose proof (split_crlf_nolt s H) as Hl.
+    destruct (split_crlf s) as [|l0 ls]; [reflexivity|]. inversion Hl; subst.
     rewrite otags_push_lines.
     - apply otags_push_quiet, nolt_nlt. assumption.
     - eapply Forall_impl; [|eassumption]. intros a Ha. apply nolt_nlt, Ha.
@@ -310,12 +303,12 @@ Section Quiet.
   Qed.
 
   (* the two tag pushes *)
-  Lemma Q_open T name st : nolb name = true -> name_start name = true -> name <> [] ->
+  Lemma Q_open T name st : nocrlf name = true -> name_start name = true -> name <> [] ->
     Q T st -> Q (T ++ [TOpen name]) (push_str c (c_lt :: name) st).
   Proof.
     intros Hb Hs Hne H. unfold Q, tags, push_str, os_push_string in *. cbn [fs_out].
-    assert (E : splitlines (c_lt :: name) = [c_lt :: name]).
-    { rewrite splitlines_nolb; [reflexivity|]. cbn [nolb forallb]. fold (nolb name). rewrite Hb. reflexivity. }
+    assert (E : split_crlf (c_lt :: name) = [c_lt :: name]).
+    { rewrite split_crlf_nocrlf; [reflexivity|]. cbn [nocrlf forallb]. fold (nocrlf name). rewrite Hb. reflexivity. }
     rewrite E. cbn [fold_left]. fold (otags (os_push (fs_out st) (c_lt :: name))). rewrite otags_push.
     unfold otags. rewrite H. f_equal. destruct name as [|ch name]; [contradiction|].
     cbn [name_start] in Hs. apply andb_true_iff in Hs. destruct Hs as [H1 H2].
@@ -323,12 +316,12 @@ Section Quiet.
     unfold text_tag. rewrite N.eqb_refl, H1, H2. reflexivity.
   Qed.
 
-  Lemma Q_close T name st : nolb name = true ->
+  Lemma Q_close T name st : nocrlf name = true ->
     Q T st -> Q (T ++ [TClose name]) (push_str c ([c_lt; c_slash] ++ name ++ [c_gt]) st).
   Proof.
     intros Hb H. unfold Q, tags, push_str, os_push_string in *. cbn [fs_out].
-    assert (E : splitlines ([c_lt; c_slash] ++ name ++ [c_gt]) = [[c_lt; c_slash] ++ name ++ [c_gt]]).
-    { rewrite splitlines_nolb; [reflexivity|]. rewrite !nolb_app, Hb. reflexivity. }
+    assert (E : split_crlf ([c_lt; c_slash] ++ name ++ [c_gt]) = [[c_lt; c_slash] ++ name ++ [c_gt]]).
+    { rewrite split_crlf_nocrlf; [reflexivity|]. rewrite !nocrlf_app, Hb. reflexivity. }
     rewrite E. cbn [fold_left]. fold (otags (os_push (fs_out st) ([c_lt; c_slash] ++ name ++ [c_gt]))).
     rewrite otags_push. unfold otags. rewrite H. f_equal.
     cbn [app text_tag]. rewrite !N.eqb_refl. rewrite removelast_last. reflexivity.
@@ -579,7 +572,7 @@ Section Quiet.
 
   Lemma node_clean_eq n :
     node_clean n = nolt (match an_name n with Some x => x | None => [] end)
-                   && nolb (match an_name n with Some x => x | None => [] end)
+                   && nocrlf (match an_name n with Some x => x | None => [] end)
                    && name_start (match an_name n with Some x => x | None => [] end)
                    && oval_nolt (an_value n)
                    && forallb attr_clean (match an_attrs n with Some l => l | None => [] end)
@@ -701,7 +694,7 @@ Section Quiet.
     apply andb_true_iff in Hcl. destruct Hcl as [Hcl Hattrs].
     apply andb_true_iff in Hcl. destruct Hcl as [Hcl Hval].
     apply andb_true_iff in Hcl. destruct Hcl as [Hcl Hstart].
-    apply andb_true_iff in Hcl. destruct Hcl as [Hnolt Hnolb].
+    apply andb_true_iff in Hcl. destruct Hcl as [Hnolt Hnocrlf].
     assert (HF : Forall elem_ev (an_children n)).
     { change (an_children n) with ch in *. rewrite forallb_forall in Hkids. rewrite Forall_forall in *.
       intros x Hx. apply IHch; [exact Hx|apply Hkids, Hx]. }
@@ -724,7 +717,7 @@ Section Quiet.
         apply h_next_spec; [exact HF|]. apply Q_push_tokens; [exact Hval|exact H0].
     - (* an element *)
       set (name := tag_name c (n0 :: nm')).
-      assert (Nb : nolb name = true) by (unfold name; rewrite nolb_tag_name; exact Hnolb).
+      assert (Nb : nocrlf name = true) by (unfold name; rewrite nocrlf_tag_name; exact Hnocrlf).
       assert (Ns : name_start name = true) by (unfold name; rewrite name_start_tag_name; exact Hstart).
       assert (Nn : name <> []) by (apply tag_name_nonempty; discriminate).
       cbv zeta. fold name.
